@@ -6,10 +6,18 @@ package parser
 
 import (
 	"strings"
+	"unicode/utf8"
 )
 
 func genTempName(in string) string {
 	return "$operator" + in
+}
+
+// charCode is the token number of a character literal: the code of the
+// character, not the first byte of its UTF-8 encoding.
+func charCode(lit string) int {
+	r, _ := utf8.DecodeRuneInString(lit)
+	return int(r)
 }
 
 func RemoveTempName(in string) string {
